@@ -224,8 +224,14 @@ RegistryT<ArgsT<TG_, TSL_, TRL_, NCC_, NOC_, NOU_, TRO_ HFSM2_IF_SERIALIZATION(,
 		 parent;
 		 parent = forkParent(parent.forkId))
 	{
-		if (parent.forkId > 0)
+		if (parent.forkId > 0) {
 			compoRemains.set(parent.forkId - 1);
+
+			Prong& requested = compoRequested[parent.forkId - 1];
+
+			if (requested != parent.prong && requested != INVALID_PRONG)
+				requested  = INVALID_PRONG;
+		}
 		else
 		if (parent.forkId < 0)
 			requestedOrthoFork(parent.forkId).set(parent.prong);
